@@ -154,6 +154,50 @@ def rel_close(got, ref, rtol, floor=0.0):
     return bool(np.max(np.abs(got - ref)) <= rtol * scale)
 
 
+# ---- driver configurations: final time, evaluation interval, measured operators (histories driven by the library's run()) ----
+DRIVE_FRACS = [0.0, 0.0, 0.04, 0.3, 0.5, 0.75]      # final_time = dt * (nrun + frac): exact multiples and non-multiples of the step
+
+
+def draw_drive(rng, nrun_choices=(1, 2, 3, 4, 5, 5, 6, 7)):
+    """a configuration of the evolution driver: the TEBD object is built with final_time = dt * (nrun + frac) (frac = 0: an exact
+    multiple of the step; otherwise NOT a multiple, below / above the library's documented round-up threshold 0.1), the steps are
+    driven by run(evaluation_time=ev) with ev in {1, 'inf', 2 .. N + 1} (dividing and not dividing the number of steps, larger than it),
+    with or without operators measured at the evaluation points"""
+    nrun = rng.choice(nrun_choices)
+    frac = rng.choice(DRIVE_FRACS)
+    n = drive_steps(nrun, frac)
+    r = rng.random()
+    ev = 1 if r < 0.15 else "inf" if r < 0.3 else rng.randrange(2, n + 2)
+    return {"nrun": nrun, "frac": frac, "ev": ev, "nops": rng.choice([0, 1, 2])}
+
+
+def drive_steps(nrun, frac):
+    """the number of steps a run up to dt * (nrun + frac) consists of: nrun steps reach dt * nrun; a remainder of less than a tenth of a
+    step is dropped, a larger one costs one more (full) step — the documented rule of the driver (property C18), frac is never near 0.1"""
+    return nrun if frac < 0.1 else nrun + 1
+
+
+def dense_tree(t, ids):
+    """independent dense contraction of a tree state by pairwise tensordot from the leaves up (no einsum over the whole network, so
+    trees of a dozen nodes / bonds of dimension 6 stay cheap); axes = open legs of the nodes in the order `ids`, the several open
+    legs of one node in node order — the same convention as util.dense_ttn"""
+    def sub(nid):
+        node = t.nodes[nid]
+        x = np.asarray(t.tensors[nid])
+        nvirt = (0 if node.is_root() else 1) + len(node.children)
+        labels = ([("b", nid)] if not node.is_root() else []) + [("b", c) for c in node.children] + \
+                 [("o", nid, k) for k in range(x.ndim - nvirt)]
+        for c in node.children:
+            y, yl = sub(c)
+            x = np.tensordot(x, y, axes=([labels.index(("b", c))], [yl.index(("b", c))]))
+            labels = [l for l in labels if l != ("b", c)] + [l for l in yl if l != ("b", c)]
+        return x, labels
+    x, labels = sub(t.root_id)
+    want = [l for nid in ids for l in sorted(l for l in labels if l[0] == "o" and l[1] == nid)]
+    assert len(want) == len(labels) == x.ndim
+    return x.transpose([labels.index(l) for l in want])
+
+
 # ---- truncation settings: the ways of switching a tolerance "off" / to its default ---------------------
 _NINF = float("-inf")
 # (rel_tol, total_tol); with a finite max_bond_dim every one of them means "truncate (essentially) by bond dimension only"
